@@ -363,7 +363,16 @@ func (n *Tree[V]) findNode(path string, captures []string, matcher LookupMatcher
 
 			if pathLen >= childPathLen && child.path == path[:childPathLen] {
 				nextPath := path[childPathLen:]
-				found, idx, captures, backtrack = child.findNode(nextPath, captures, matcher)
+
+				// the values captured so far must survive a descent into the static branch, which does not
+				// lead to a match. Otherwise, the values captured by the wildcards tried next are assigned
+				// to the wrong keys
+				var tmp []string
+
+				found, idx, tmp, backtrack = child.findNode(nextPath, captures, matcher)
+				if found != nil {
+					captures = tmp
+				}
 			}
 
 			break
